@@ -1842,8 +1842,11 @@ def who_may_write(chk, rule):
             c = t["callee"]
             if callee_is(c, N.STDOUT):
                 chk.saw_calls()
-                chk.ob(rule, "stdout()/caller=%s" % f.path, f.path in allowed, f.loc(b),
-                       "io::stdout() may only be called by the spectrum writer and the stat runner constructor")
+                # (anywhere inside the spectrum writer's module counts as the spectrum writer: its entry points are what the commands call,
+                # and the no-partial-output rules place those calls)
+                in_writer = f.path.startswith("sfs_core::spectrum::io::write::") or f.path.startswith("<sfs_core::spectrum::io::write::")
+                chk.ob(rule, "stdout()/caller=%s" % f.path, f.path in allowed or in_writer, f.loc(b),
+                       "io::stdout() may only be called by the spectrum writer (module spectrum::io::write) and the stat runner constructor")
             if callee_is(c, N.PRINT):
                 chk.ob(rule, "print!/caller=%s" % f.path, False, f.loc(b), "print!/println! writes to stdout outside the two reviewed writers")
             if callee_is(c, N.EPRINT):
